@@ -66,7 +66,7 @@ def gen_cases(rng, tier):
                 else:
                     fr.append([fw[a][k] + rng.randint(-40, 40) for k in range(3)])
             coords.append(fr)
-        cases.append({'m': m, 'rot': rng.random() < 0.3, 'rseed': rng.randrange(10**6), 'species': species, 'sites8': [list(p) for p in pts],
+        cases.append({'flip': rng.random() < 0.5, 'm': m, 'rot': rng.random() < 0.3, 'rseed': rng.randrange(10**6), 'species': species, 'sites8': [list(p) for p in pts],
                       'labels': labels, 'coords': coords, 'max_dist': rng.choice([2.0, 3.5, 5.0]), 'res': rng.choice([0.5, 0.25, 0.7]),
                       'radius': rng.choice([0.5, 0.8])})
     return cases
@@ -86,6 +86,10 @@ def impl(case):
         if 'at least one array' in str(e):
             return {'no_events': True}
         raise
+    if case.get('flip'):
+        # displacement-based analyses made in between leave the trajectories held by the transitions object in displacement mode
+        tr.diff_trajectory.mean_squared_displacement()
+        _ = tr.trajectory.displacements
     guard = synth.InputGuard(trajectory=traj, transitions=tr, sites=sites)
     rd = tr.radial_distribution(floating_specie='Li', max_dist=case['max_dist'], resolution=case['res'])
     table = []
